@@ -230,20 +230,8 @@ func (db *Database) resolveDirty() error {
 	}
 
 	if db.journal != "" {
-		hot, err := validJournal(db.journal)
-		if err != nil {
+		if err := db.checkJournal(); err != nil {
 			return err
-		}
-		if hot {
-			// If something is using the transaction the db will have a RESERVED
-			// lock.
-			locked, err := db.l.CheckReservedLock()
-			if err != nil {
-				return err
-			}
-			if !locked {
-				return ErrHotJournal
-			}
 		}
 	}
 
@@ -263,6 +251,39 @@ func (db *Database) resolveDirty() error {
 	}
 	db.dirty = false
 	db.header = &newHeader
+	return nil
+}
+
+// checkJournal returns ErrHotJournal if a crashed writer left its journal
+// behind. A journal belongs to a live transaction if somebody holds the RESERVED
+// lock. The journal and the lock are separate observations, and writers come
+// and go in between (they can roll back, and begin, while we hold our read
+// lock): a journal only counts as left behind if the same journal - SQLite
+// gives every journal a new random nonce - is there before and after a look at
+// the lock which found nobody.
+func (db *Database) checkJournal() error {
+	hot, nonce, err := readJournal(db.journal)
+	if err != nil {
+		return err
+	}
+	for try := 0; hot; try++ {
+		// If something is using the transaction the db will have a RESERVED
+		// lock.
+		locked, err := db.l.CheckReservedLock()
+		if err != nil {
+			return err
+		}
+		if locked {
+			return nil
+		}
+		before := nonce
+		if hot, nonce, err = readJournal(db.journal); err != nil {
+			return err
+		}
+		if hot && (nonce == before || try > 8) {
+			return ErrHotJournal
+		}
+	}
 	return nil
 }
 
